@@ -15,7 +15,7 @@ use crate::{
     },
     base::types::{self, ArcType},
     gc::{CloneUnrooted, GcPtr, GcRef, Move, Trace},
-    thread::{RootedThread, ThreadInternal},
+    thread::RootedThread,
     value::{Cloner, Value},
     vm::Thread,
 };
@@ -25,6 +25,8 @@ pub struct Lazy<T> {
     // No need to traverse this thread reference as any thread having a reference to this `Sender`
     // would also directly own a reference to the `Thread`
     thread: GcPtr<Thread>,
+    // Set when the lazy value has been cloned into the global heap (as part of a module)
+    in_global_heap: bool,
     _marker: PhantomData<T>,
 }
 
@@ -49,6 +51,7 @@ where
             let data: Box<dyn Userdata> = Box::new(Lazy {
                 value: Mutex::new(cloned_value),
                 thread: GcPtr::from_raw(deep_cloner.thread()),
+                in_global_heap: deep_cloner.gc().generation().is_root(),
                 _marker: PhantomData::<A>,
             });
             deep_cloner.gc().alloc(Move(data))
@@ -120,7 +123,12 @@ fn force(
                 match function.call_async(()).await {
                     Ok(value) => {
                         {
-                            let value = match lazy.thread.deep_clone_value(&vm, value.get_value()) {
+                            let value = match crate::value::deep_clone_into_cell(
+                                lazy.in_global_heap,
+                                &lazy.thread,
+                                &vm,
+                                value.get_value(),
+                            ) {
                                 Ok(value) => value,
                                 Err(err) => return RuntimeResult::Panic(err.to_string().into()),
                             };
@@ -205,6 +213,7 @@ fn lazy(f: OpaqueValue<&Thread, fn(()) -> A>) -> Lazy<A> {
         Lazy {
             value: Mutex::new(Lazy_::Thunk(f.get_value().clone_unrooted())),
             thread: GcPtr::from_raw(f.vm()),
+            in_global_heap: false,
             _marker: PhantomData,
         }
     }
